@@ -73,7 +73,7 @@ class _Cards:
     for a deck and for its respellings (letter case, blanks, tabs, continuation lines of both kinds, `$` and `c`
     comments, a message block, Fortran spellings of real numbers, nR shorthand), fields compared up to case and
     blanks, numbers by value, nR shorthand expanded."""
-    scope = 'one deck with every card kind x 8 respelling kinds x 6 seeds, plus all kinds together x 30 seeds'
+    scope = 'one deck with every card kind x 9 respelling kinds x 6 seeds, plus all kinds together x 30 seeds'
 
     def bounded(tier):
         from harness import respell
